@@ -95,7 +95,9 @@ def nontrivial(prog, steps):
 
 def main(argv):
     return rcheck.run(
-        PID, argv, module="C01", theorems=['C01_loop_consistent_partial', 'C01_loop_invariant', 'C01_late_read_refuted'], bridge=1500, extra_targets=["theories/Reactive/Bridge.vo"], gen=gen, oracle=oracle, nontrivial=nontrivial,
+        PID, argv, module="C01+C01Write", theorems=['C01_loop_consistent_partial', 'C01_loop_invariant', 'C01_late_read_refuted', 'C01_dfs_establishes_inv', 'C01_write_no_fuel_no_cycle',
+                                                  'C01_write_consistent', 'C01_write_signals', 'C01_writes_consistent', 'C01_create_empty', 'C01_create_signal', 'C01_create_memo',
+                                                  'C01_memo_holds_current_value', 'C01_batch_consistent', 'C01_write_consistent_without_lrf_refuted'], bridge=1500, extra_targets=["theories/Reactive/Bridge.vo"], gen=gen, oracle=oracle, nontrivial=nontrivial,
         rule=("small family: <=2 signals, <=3 derived nodes from templates (double, sum, conditional read, selector mod 2, effect) "
               "x <=2 writes, sampled without replacement; random family: programs with nested creation, conditional and untracked "
               "reads, selectors, effects (some writing signals), scopes, batches, disposals; non-trivial = some derived value and "
